@@ -202,7 +202,10 @@ theorem stmt_define (f : Nat) (lhs : List String) (rhs : Exprs) (st : St Ω) :
       | some (vs, st1) => (st1.env.pushAll lhs vs).map fun e => (.next, { st1 with env := e })
       | none => none := rfl
 theorem stmt_declare (f : Nat) (x ty : String) (st : St Ω) :
-    execStmt W (f + 1) (.declare x ty) st = (zeroOf ty).map fun z => (.next, { st with env := st.env.push x z }) := rfl
+    execStmt W (f + 1) (.declare x ty) st =
+      match zeroOf ty with
+      | some z => some (.next, { st with env := st.env.push x z })
+      | none => (W.global ("zero:" ++ ty)).map fun z => (.next, { st with env := st.env.push x z }) := rfl
 theorem stmt_assign (f : Nat) (lhs rhs : Exprs) (st : St Ω) :
     execStmt W (f + 1) (.assign lhs rhs) st =
       match evalRhs W f lhs.length rhs st with
